@@ -27,7 +27,8 @@ RULE = ("job = seed -> family in {rsa, cache, verifierdb, cache_seq}.  rsa: "
         "other than KeyError for a miss.  distinct = digest(family, ops, "
         "interleaving); non-trivial = >= 1 context switch happened inside an "
         "operation (concurrent families) / >= 1 expiry or eviction happened "
-        "(cache_seq)")
+        "(cache_seq)"
+        ' Verifier-db histories include stores the database must refuse (it has to stay usable).')
 LEVEL_TEXT = ("Seeded schedule search with real threads parked at intercepted "
               "points (line events + SimLock), one runnable at a time, so "
               "every interleaving replays exactly.  Bounded: <= 3 threads, "
